@@ -21,6 +21,7 @@
 #define SOLREADER2_HPP
 
 #include <cstdio>
+#include <climits>
 
 #include "mp/sol-reader2.h"
 
@@ -499,6 +500,8 @@ Lget(char **sp, int *Lp)
     return 1;
   L = c - '0';
   while((c = *s) >= '0' && c <= '9') {
+    if (L > (INT_MAX - (c - '0')) / 10)
+      return 1;                     // does not fit into int
     L = 10*L + c - '0';
     s++;
   }
@@ -589,6 +592,9 @@ int SOLReader2<SOLHandler>::sufheadcheck(SufRead* sr) {
   n = (int)sr->h.n;
   if (sr->h.kind < 0 || sr->h.kind > 15 || n < 0 || sr->h.namelen < 2
    || sr->h.tablen < 0)
+    return 1;
+  // The scratch buffer size below must fit into int.
+  if (sr->h.namelen > (INT_MAX - 6 - sr->h.tablen) / 2)
     return 1;
   i = (int)sr->h.kind & 3;
   if (sr->h.tablen
